@@ -75,12 +75,69 @@ def field_of(n, ids):
     return None
 
 
+def array_access(e, ids, arrays, scalars):
+    """(field, kind) if e designates memory inside an array field of the state: kind 'start' (the field itself, offset
+    0), 'tail' (field + an offset that mentions a scalar field of the state: beyond the fill mark), 'part' (other)"""
+    cur = strip(e)
+    if not isinstance(cur, dict):
+        return None
+    if cur.get("k") == "Un" and cur["op"] == "&":
+        cur = strip(cur["e"])
+    exprs = []
+    F = None
+    for _ in range(12):
+        if not isinstance(cur, dict):
+            return None
+        k = cur.get("k")
+        if k == "Index":
+            exprs.append(cur["i"])
+            cur = strip(cur["b"])
+        elif k == "Un" and cur["op"] == "*":
+            cur = strip(cur["e"])
+        elif k == "Bin" and cur["op"] in ("+", "-"):
+            exprs.append(cur["y"])
+            cur = strip(cur["x"])
+        elif k == "Member":
+            F = field_of(cur, ids)
+            if F in arrays:
+                break
+            # a member of a nested struct array (st->wbl->key): walk down to the state's own field
+            cur = strip(cur["b"])
+        else:
+            return None
+    if F not in arrays:
+        return None
+    if not exprs or all(ir.int_val(x) == 0 for x in exprs):
+        return F, "start"
+    for x in exprs:
+        for n in walk(x):
+            if n.get("k") == "Member" and field_of(n, ids) in scalars:
+                return F, "tail"
+    return F, "part"
+
+
 class FieldUse(ir.Client):
     """state: scalar fields written so far on the path; collects fields written / read before written"""
 
-    def __init__(self, ids, scalars):
+    def __init__(self, ids, scalars, arrays=(), prog=None, unit=None):
         self.ids, self.sc = ids, scalars
+        self.arrays, self.prog, self.unit = set(arrays), prog, unit
         self.exposed, self.written = {}, {}
+        self.arr_exposed, self.arr_written = {}, {}
+        self.copies = []       # (destination field, source field, line) of element copies between array fields
+
+    def _arr(self, e, w, write, line):
+        a = array_access(e, self.ids, self.arrays, self.sc)
+        if a is None:
+            return False
+        F, kind = a
+        if write:
+            self.arr_written.setdefault(F, []).append((kind, line))
+            if kind == "start":
+                w.add("[]" + F)
+        elif "[]" + F not in w:
+            self.arr_exposed.setdefault(F, line)
+        return True
 
     def init(self, func):
         return frozenset()
@@ -93,6 +150,43 @@ class FieldUse(ir.Client):
                 return
             k = n.get("k")
             if k == "Call" and n.get("callee") == "utilAssert":
+                return
+            if k == "Call" and self.arrays:
+                proto = self.prog.proto(n.get("callee"), self.unit) if (self.prog is not None and n.get("callee")) else None
+                reads, writes = [], []
+                for i, a in enumerate(n["a"]):
+                    if array_access(a, self.ids, self.arrays, self.sc) is None:
+                        rec(a)
+                        continue
+                    const = bool(proto is not None and i < len(proto.params) and proto.params[i].get("pc"))
+                    (reads if const else writes).append(a)
+                    # a non-const buffer may also be read by the callee (in-place operations): count the read first
+                    if not const and not (n.get("callee") or "").startswith(("memCopy", "memMove", "memSet", "wwFrom", "wwCopy", "u16From", "u32From", "u64From", "beltBlockCopy")):
+                        reads.append(a)
+                for a in reads:
+                    self._arr(a, w, False, n.get("l") or node.line)
+                for a in writes:
+                    self._arr(a, w, True, n.get("l") or node.line)
+                if (n.get("callee") or "") in ("memCopy", "memMove", "wwCopy") and len(n["a"]) >= 2:
+                    d_, s_ = (array_access(n["a"][0], self.ids, self.arrays, self.sc),
+                              array_access(n["a"][1], self.ids, self.arrays, self.sc))
+                    if d_ is not None and s_ is not None and d_[0] != s_[0]:
+                        self.copies.append((d_[0], s_[0], n.get("l") or node.line))
+                return
+            if k == "Bin" and n["op"] in ir.ASSIGN_OPS and self.arrays and strip(n["x"]).get("k") in ("Index", "Un") and \
+                    array_access(n["x"], self.ids, self.arrays, self.sc) is not None:
+                if n["op"] == "=":
+                    src = array_access(n["y"], self.ids, self.arrays, self.sc) if strip(n["y"]).get("k") in ("Index", "Un") else None
+                    dst = array_access(n["x"], self.ids, self.arrays, self.sc)
+                    if src is not None and src[0] != dst[0]:
+                        self.copies.append((dst[0], src[0], n.get("l") or node.line))
+                rec(n["y"])
+                if n["op"] != "=":
+                    self._arr(n["x"], w, False, n.get("l") or node.line)
+                self._arr(n["x"], w, True, n.get("l") or node.line)
+                return
+            if k in ("Index",) and self.arrays and array_access(n, self.ids, self.arrays, self.sc) is not None:
+                self._arr(n, w, False, n.get("l") or node.line)
                 return
             if k == "Bin" and n["op"] in ir.ASSIGN_OPS:
                 rec(n["y"])
@@ -141,9 +235,11 @@ def check_get_steps(prog, res, rule, units=None):
         if rec is None:
             continue
         scal = {fl["n"] for fl in rec["fields"] if (fl.get("t") or "") in SCALAR_TYPES}
+        arrs = {fl["n"] for fl in rec["fields"] if "[" in (fl.get("t") or "")}
+        flexible = {fl["n"] for fl in rec["fields"] if re.search(r"\[\]$", (fl.get("t") or "").strip())}
         info = {}
         for f, pi in fs:
-            cl = FieldUse(state_aliases(f, pi), scal)
+            cl = FieldUse(state_aliases(f, pi), scal, arrs, prog, f.unit)
             r = ir.run_paths(f, cl)
             if r.truncated:
                 raise AnalysisBroken("path exploration truncated in %s" % f.name)
@@ -166,6 +262,7 @@ def check_get_steps(prog, res, rule, units=None):
                         seen.add(y)
                         work.append(y)
             return seen
+        live_fields = {F for g, cl in info.items() if not GET.search(g) and not g.endswith("_internal") for F in cl.arr_exposed}
         for f, pi in gets:
             n += 1
             for h in closure(f.name):
@@ -175,11 +272,43 @@ def check_get_steps(prog, res, rule, units=None):
                 res.proved(rule, function=f.name, file=rel, line=f.line, construct="generator step",
                            detail="not an observation step: " + GENERATORS[f.name], nontrivial=False)
                 continue
+            # array fields: a Get may write scratch copies, the dead tail of the block buffer beyond the fill mark, and
+            # may modify a live field only inside a save / restore pair through a scratch copy
+            members = [f.name] + sorted(closure(f.name))
+            arr_w = {}
+            copies = []
+            for h in members:
+                for F, evs in info[h].arr_written.items():
+                    arr_w.setdefault(F, []).extend((k_, l_, h) for k_, l_ in evs)
+                copies += [(d_, s_, l_, h) for d_, s_, l_ in info[h].copies]
+            abad = []
+            for F, evs in sorted(arr_w.items()):
+                if F in flexible or all(k_ == "tail" for k_, _, _ in evs):
+                    continue
+                live_in = sorted(g for g, cl in info.items() if F in cl.arr_exposed and not GET.search(g) and
+                                 not g.endswith("_internal"))
+                if not live_in:
+                    continue          # a working copy: no Start/Step function reads it before writing it
+                saved = [c_ for c_ in copies if c_[1] == F and c_[0] not in live_fields]
+                restored = [c_ for c_ in copies if c_[0] == F and c_[1] in {x[0] for x in saved}]
+                other = [e_ for e_ in evs if e_[0] != "tail" and not any(e_[1] == r_[2] and e_[2] == r_[3] for r_ in restored)]
+                if saved and restored and all(max(r_[2] for r_ in restored if r_[3] == e_[2]) >= e_[1]
+                                              for e_ in other if any(r_[3] == e_[2] for r_ in restored)) and \
+                        all(any(r_[3] == e_[2] for r_ in restored) for e_ in other):
+                    continue          # saved to a scratch field first, restored after the last modification
+                abad.append((F, min(l_ for _, l_, _ in evs), live_in))
+            for F, wl, readers in abad:
+                res.violation(rule, function=f.name, file=rel, line=wl, construct="write into %s->%s in a Get step" % (sn, F),
+                              detail="%s (or its helper) modifies the array field `%s` of the running state -- not beyond the fill "
+                                     "mark and not inside a save/restore pair -- and %s read(s) it before writing: continuing after "
+                                     "the Get gives a different result" % (f.name, F, ", ".join(readers[:3])))
             bad = []
             for F, wl in sorted(info[f.name].written.items()):
                 readers = sorted(g for g, cl in info.items() if F in cl.exposed and g != f.name and g not in closure(f.name))
                 if readers:
                     bad.append((F, wl, readers))
+            if abad and not bad:
+                continue
             if bad:
                 for F, wl, readers in bad:
                     res.violation(rule, function=f.name, file=rel, line=wl, construct="write of %s->%s in a Get step" % (sn, F),
